@@ -278,6 +278,11 @@ func (h *handler1) handleBrokerPublish(ctx context.Context, mqPublish *mqPkts.Pu
 			len(mqPublish.TopicName), len(mqPublish.Payload))
 		return nil
 	}
+	// A REGISTER packet cannot carry an empty topic name (and MQTT forbids it).
+	if mqPublish.TopicName == "" {
+		h.log.Error("Dropping message with an empty topic name from broker")
+		return nil
+	}
 
 	// Get TopicID
 	var needsRegister bool
